@@ -9,6 +9,8 @@ verus! {
 
 // ---------------------------------------------------------------- trusted prelude
 // i32::pow(2) on channel differences (|x| <= 255): no overflow, value x*x
+//@ include std_specs.inc
+
 pub assume_specification[ i32::pow ](base: i32, exp: u32) -> (r: i32)
     requires exp == 2, -65536 < base < 65536,
     ensures r == base * base;
